@@ -421,6 +421,9 @@ func (r *Runner) assignVal(name string, prev expand.Variable, as *syntax.Assign,
 				prev.List = slices.Clone(prev.List)
 				prev.List[0] += s
 			} else {
+				// Likewise; SetIndexedElem may shift the elements in place.
+				prev.List = slices.Clone(prev.List)
+				prev.Indexes = slices.Clone(prev.Indexes)
 				prev.List, prev.Indexes = internal.SetIndexedElem(prev.List, prev.Indexes, 0, s)
 			}
 		case expand.Associative:
